@@ -10,7 +10,7 @@ import numpy as np
 from hypothesis import strategies as st
 
 from vf.core import Discard, Violation, require
-from vf.observe import MSG_ITER, run_min, snapshot_state
+from vf.observe import MSG_ITER, continuation_is_well_conditioned, run_min, snapshot_state
 from vf.runspec import run_spec
 from vf.specs import ALL_FAMILIES, build
 
@@ -81,7 +81,7 @@ def check_pairs(ck, rs, m_new, tag):
     return max(ds / tol_s, dy / tol_y)
 
 
-def check_next(ref_k, ref_k1, rs, tag, ref_trace=None, rs_trace=None, stats=None):
+def check_next(ref_k, ref_k1, rs, tag, ref_trace=None, rs_trace=None, stats=None, probe=None):
     """Clause (b): next iterate and nit.  ref_trace / rs_trace (optional): the Trace objects of the
     uninterrupted run(maxiter=k+1) and of the restarted run, used to tell a wrong memory (the first trial
     point of the next line search differs) from a discrete line-search decision that flipped on the
@@ -99,6 +99,12 @@ def check_next(ref_k, ref_k1, rs, tag, ref_trace=None, rs_trace=None, stats=None
                 if stats is not None:
                     stats.bump("line-search-decision-flipped-on-rounding(not judged)")
                 return 0.0
+    if dev > tol and probe is not None and not probe(tol):
+        # conditioning probe (vf.observe.continuation_is_well_conditioned): the restarted continuation itself moves by more than
+        # the tolerance when its checkpoint changes in the last bits, so the iterate is not a function of the state at this precision
+        if stats is not None:
+            stats.bump("next-iterate-chaotic-under-1ulp-perturbation(not judged)")
+        return 0.0
     require(dev <= tol, f"next-iterate[{tag}]",
             f"restart lands {dev:.3e} from the uninterrupted iterate (step {step:.3e}, tol {tol:.3e}); nit ref={ref_k1['nit']} restart={rs['nit']}")
     require(rs["nit"] == ref_k1["nit"], f"nit-resumed[{tag}]", f"restart nit={rs['nit']} uninterrupted nit={ref_k1['nit']}")
@@ -160,7 +166,8 @@ def check(spec, stats=None):
         R1 = restart(prob, cfg, A.result, k + 1)
         if R1.exc is not None:
             raise Violation("restart-accepted", f"restart(maxiter={k + 1}) raised {type(R1.exc).__name__}: {R1.exc}")
-        rb = check_next(ck, B.res, R1.res, "single", B, R1, stats)
+        rb = check_next(ck, B.res, R1.res, "single", B, R1, stats,
+                        probe=lambda tol: continuation_is_well_conditioned(lambda c: restart(prob, cfg, c, k + 1), A.result, R1.res["x"], tol))
         if stats is not None:
             stats.maxi("max_pair_dev_over_tol", ra)
             stats.maxi("max_next_iterate_dev_over_tol", rb)
@@ -190,7 +197,8 @@ def check(spec, stats=None):
             if r1.exc is not None:
                 raise Violation("restart-accepted", f"chained restart raised {r1.exc}")
             if nxt_ref.res["nit"] == kk + 1 or nxt_ref.res["nit"] == r1.res["nit"]:
-                check_next(cur.res, nxt_ref.res, r1.res, "chain", None, None, stats)
+                check_next(cur.res, nxt_ref.res, r1.res, "chain", None, None, stats,
+                           probe=lambda tol: continuation_is_well_conditioned(lambda c: restart(prob, cfg, c, kk + 1), cur.result, r1.res["x"], tol))
             prev_ck = cur.result
             cur = r1
             chain_len += 1
